@@ -74,7 +74,9 @@ int main() {
         pid_t pid = fork();
         if (pid == 0) {
             if (!freopen("/dev/null", "w", stderr)) {}
-            dump_set(lam);
+            // the call sits under a catch-all handler, as in an application with a top-level try block or a task wrapper: a rejection that is an
+            // exception instead of abort() is swallowed there (exit status 77)
+            try { dump_set(lam); } catch (...) { _exit(77); }
             _exit(0);
         }
         int st = 0; waitpid(pid, &st, 0);
